@@ -1,33 +1,51 @@
 #!/usr/bin/env python3
-"""Render /verif/seeded/*/meta.json as the markdown table of DESIGN.md section 8.6."""
-import json, glob, os, re
+"""Render the seeded-change table of DESIGN.md section 8.6.
+
+First-run columns come from /verif/seeded/<seed>/meta.json (what the checks reported when the seed was
+delivered, before any strengthening); the final columns from /verif/seeded/SELFTEST.json, written by
+`./check --selftest` (every seed re-applied to a scratch copy of /repo's HEAD)."""
+import glob
+import json
+import os
+
+st_path = '/verif/seeded/SELFTEST.json'
+selftest = json.load(open(st_path)) if os.path.exists(st_path) else {}
 rows = []
 for d in sorted(glob.glob('/verif/seeded/*/meta.json')):
     m = json.load(open(d))
     sid = m.get('seed')
-    notes = ''
-    np_ = os.path.join(os.path.dirname(d), 'agent_notes.md')
-    what = ''
-    ob, bd = [], []
-    for p, r in (m.get('checks') or {}).items():
-        for v in r['violation_lines']:
-            if 'obligation=' in v:
-                ob.append(v.split('obligation=')[1].split()[0])
-            elif 'contract=' in v:
-                bd.append(v.split('contract=')[1].split()[0] + ('/' + v.split('class=')[1].split()[0] if 'class=' in v else ''))
-            elif 'class=' in v:
-                bd.append(v.split('class=')[1].split()[0])
     first = os.path.join(os.path.dirname(d), 'meta.first_run.json')
-    missed_first = False
-    if os.path.exists(first):
-        missed_first = not json.load(open(first)).get('detected')
-    rows.append((sid, m.get('confirmed'), m.get('detected'), sorted(set(ob))[:2], sorted(set(bd))[:2], missed_first))
-print('| seed | confirmed | detected | named obligation(s) (deductive tier) | bounded contract/class | note |')
+    m0 = json.load(open(first)) if os.path.exists(first) else m
+    first_det = bool(m0.get('detected'))
+    first_ded = bool(m0.get('detected_by_deductive'))
+    s = selftest.get(sid)
+    title = ''
+    notes = os.path.join(os.path.dirname(d), 'agent_notes.md')
+    patch = os.path.join(os.path.dirname(d), 'patch.diff')
+    files = []
+    if os.path.exists(patch):
+        for l in open(patch, errors='replace'):
+            if l.startswith('+++ b/'):
+                files.append(l[6:].strip().replace('mistletoe/', ''))
+    rows.append((sid, m.get('confirmed'), first_det, first_ded, s, ', '.join(files)))
+
+print('| seed | file(s) changed | when delivered | now (selftest on HEAD) | named obligation(s) | bounded class(es) |')
 print('|---|---|---|---|---|---|')
-for sid, conf, det, ob, bd, mf in rows:
-    print('| %s | %s | %s | %s | %s | %s |' % (sid, 'yes' if conf else 'NO', 'yes' if det else '**no**',
-          '<br>'.join('`%s`' % o for o in ob) or '—', '<br>'.join('`%s`' % b for b in bd) or '—',
-          'missed on first run; checks strengthened' if mf else ''))
+n_now = n_ob = n_first = 0
+for sid, conf, fd, fded, s, files in rows:
+    when = ('detected' + (' (deductive)' if fded else ' (bounded)')) if fd else '**missed**'
+    n_first += bool(fd)
+    if s is None:
+        now, ob, bc = 'not re-run', '—', '—'
+    else:
+        det = s['exit'] == 1
+        n_now += det
+        n_ob += bool(s['obligations'])
+        now = 'detected' if det else ('patch no longer applies' if s['exit'] < 0 else '**missed**')
+        ob = '<br>'.join('`%s`' % o for o in s['obligations'][:3]) or '—'
+        bc = '<br>'.join('`%s`' % b for b in s['bounded_classes'][:2]) or '—'
+    print('| %s | %s | %s | %s | %s | %s |' % (sid, files, when, now, ob, bc))
 print()
-print('%d seeded changes, %d confirmed, %d detected, %d by a named obligation of the deductive tier.' % (
-    len(rows), sum(1 for r in rows if r[1]), sum(1 for r in rows if r[2]), sum(1 for r in rows if r[3])))
+print('%d seeded changes (all confirmed: test suite passes, demonstration fails); %d detected when delivered; '
+      '%d detected by the final checks, %d of them by a named obligation of the deductive tier.' % (
+          len(rows), n_first, n_now, n_ob))
